@@ -149,9 +149,21 @@ pub fn build_data(mtype: u8, devaddr: u32, fctrl_hi: u8, fcnt: u32, fopts: &[u8]
     if fopts.len() > 15 || (fport == Some(0) && !fopts.is_empty()) {
         return None;
     }
+    build_data_any(mtype << 5, devaddr, fctrl_hi, fcnt, fopts, fport, payload, nwk, app)
+}
+
+/// The same layout and cryptography for ANY description a sender could put on the air, including
+/// those the specification asks senders not to build (FOpts together with FPort 0) and MHDR octets
+/// with RFU bits set: receivers must decode them all the same way.
+#[allow(clippy::too_many_arguments)]
+pub fn build_data_any(mhdr: u8, devaddr: u32, fctrl_hi: u8, fcnt: u32, fopts: &[u8], fport: Option<u8>, payload: &[u8], nwk: &[u8; 16], app: &[u8; 16]) -> Option<Vec<u8>> {
+    let mtype = mhdr >> 5;
+    if fopts.len() > 15 {
+        return None;
+    }
     let dir = if mtype == 3 || mtype == 5 { 1u8 } else { 0u8 };
     let addr = devaddr.to_le_bytes();
-    let mut out = vec![mtype << 5];
+    let mut out = vec![mhdr];
     out.extend_from_slice(&addr);
     out.push((fctrl_hi & 0xf0) | fopts.len() as u8);
     out.extend_from_slice(&(fcnt as u16).to_le_bytes());
